@@ -268,7 +268,7 @@ def check_ctx_global(eng, run):
                     run.finding("C09.ctx", fn, st, (f"`{ast.unparse(st)[:70]}` switches OP_IGNORE_UNEXPECTED_EOF on" if switches_on else f"`{ast.unparse(st)[:70]}` edits `{owner}`, a context this function did not create") +
                                 ": the setting stays on the caller's (shared) SSLContext, so later standard-compatible connections made from it report a truncated stream as a clean end-of-stream")
                 run.ob("C09.ctx", f"{fn.short}:{owner}.{t.attr}:own-context-only", ok)
-    run.floor("C09.ctx stores to TLS context attributes", n, 4)
+    run.floor("C09.ctx stores to TLS context attributes", n, 2)
 
 
 def check_cli(eng, run):
